@@ -1,3 +1,4 @@
+import Alpen.Model.Reserve
 /-
   Transport groups: which node of the group a pull is handed to (`TransportGroupIO.pull_force`).  Core Lean only.
 -/
@@ -28,5 +29,33 @@ def minKey : Option TNode → List TNode → Option TNode
 /-- `pull_force`: non-local sources are ignored; otherwise the fullest node that can take the file -/
 def transportPick (srcLocal : Bool) (nodes : List TNode) : Option Nat :=
   if srcLocal then (minKey none (nodes.filter TNode.eligible)).map (·.id) else none
+
+/-- a local transport node as the whole dispatch (`pull_force`, then the chosen node's `pull`) sees it -/
+structure TGNode where
+  id : Nat
+  availKiB : Option Int          -- `avail_gb` as recorded in the index
+  underMin : Bool
+  overMax : Bool
+  bavail : Option Int            -- bytes free as the file system reports them (`bytes_avail`)
+  reserved : Int                 -- `_reserved_bytes[node]`
+  deriving DecidableEq, Repr
+
+/-- what `pull_force` sees of the node: `fits` is a check-only reservation -/
+def TGNode.view (factor size : Nat) (n : TGNode) : TNode :=
+  ⟨n.id, n.availKiB, n.underMin, n.overMax, (reserveBytes factor n.bavail n.reserved size true).1⟩
+
+/-- the chosen node's `DefaultNodeIO.pull`: (task created, node afterwards) -/
+def TGNode.pull (factor size : Nat) (n : TGNode) : Bool × TGNode :=
+  let r := pullAdmit factor n.underMin n.overMax n.bavail n.reserved size
+  (r.1, { n with reserved := r.2 })
+
+/-- `TransportGroupIO.pull_force` followed by the chosen node's `pull`:
+    (node the request was handed to, whether a transfer task was created, nodes afterwards) -/
+def tgDispatch (factor size : Nat) (srcLocal : Bool) (nodes : List TGNode) : Option Nat × Bool × List TGNode :=
+  match transportPick srcLocal (nodes.map (TGNode.view factor size)) with
+  | none => (none, false, nodes)
+  | some i =>
+    (some i, nodes.any (fun n => n.id == i && (n.pull factor size).1),
+     nodes.map (fun n => if n.id == i then (n.pull factor size).2 else n))
 
 end Alpen
